@@ -73,14 +73,9 @@ def obs_obj(o, ver, s0):
             r["json%d%d" % (s, m)] = jsonitems(o.as_json(sort=s, minimal=m), s)
     # iteration order of the unsorted documents, kept apart from their content
     r["korder"] = [[txt(k) for k in o.as_json(minimal=m)] for m in (False, True)]
-    # the object stored and copied the way the interpreter's own standard library does it by default (pickle's
-    # default protocol differs between the interpreters): what comes back, or the class of what is raised
-    for name, fn in (("pickle", lambda x: pickle.loads(pickle.dumps(x))), ("deepcopy", copy.deepcopy), ("copy", copy.copy)):
-        try:
-            o2 = fn(o)
-            r[name] = [txt(o2.clean_vector()), list(o2.scores()), txt(o2.rh_vector()), o2 == o, hash(o2) == hash(o)]
-        except Exception as e:
-            r[name] = type(e).__name__
+    # (pickle / copy round trips were observed here for a while in session 3; withdrawn: C20 enumerates what must be
+    # identical and storing or copying objects is not in it -- control own-v2-slots-and-private-metrics, whose objects
+    # cannot be pickled with 2.7's default protocol, raised a false alarm)
     return r
 
 
